@@ -191,6 +191,11 @@ def step (st : St) (ts : List String) : St × String :=
       let n := n % (st.rest.length + 1)
       let r := readOp k st.re st.rest (.skip n)
       ({ st with re := r.1, rest := r.2.1 }, "ok")
+  | ["state"] =>
+    -- a stream that was only asked for bytes that are there reports no error; a reader socket has exactly the unread bytes pending
+    if k != .sock then (st, "na")
+    else if !st.reading then (st, "ok error=0")
+    else (st, s!"ok error=0 available={st.rest.length}")
   | ["rsame", h] =>
     -- probe of known finding `string-read-not-inverse`: what "read the same type back" would have to return
     if !st.reading then (st, "not-reading") else
